@@ -83,6 +83,4 @@ AllIds == {GenId(t[1], t[2], t[3]) : t \in GenTriples} \cup NeededNamed
 UFD0 == [id \in AllIds |->
           IF id \in DOMAIN Named THEN Named[id]
           ELSE LET t == CHOOSE t \in GenTriples : GenId(t[1], t[2], t[3]) = id IN Gen(t[1], t[2], t[3])]
-(* TLCEval: make it an explicit function once instead of a lazily applied definition *)
-UFD == TLCEval(UFD0)
 =============================================================================
